@@ -15,7 +15,7 @@ impl Prop for C07 {
         700
     }
     fn cases(&self, tier: Tier) -> u32 {
-        tier.pick(24_000, 500_000)
+        tier.pick(72_000, 1_200_000)
     }
     fn watchdog_ms(&self) -> u64 {
         20_000
